@@ -40,6 +40,8 @@ pub enum FaultMode {
     None,
     WriteSync,
     All,
+    /// only legal-but-unusual behaviours that must be invisible: short reads/writes and EINTR
+    Transparent,
 }
 
 impl Profile {
@@ -441,6 +443,20 @@ impl G<'_> {
 pub fn gen_faults(rng: &mut Rng, mode: FaultMode, est_calls: u32) -> Vec<Fault> {
     if mode == FaultMode::None {
         return vec![];
+    }
+    if mode == FaultMode::Transparent {
+        let n = rng.range(2, 8);
+        let mut out = vec![];
+        for _ in 0..n {
+            let call = *rng.pick(&[Call::Write, Call::Read, Call::Read, Call::Pread, Call::Pread]);
+            let span = match call {
+                Call::Write => est_calls.max(4),
+                _ => est_calls.max(4) * 3,
+            };
+            let effect = if rng.chance(50) { Effect::Short } else { Effect::Errno(libc::EINTR) };
+            out.push(Fault { call, nth: rng.below(span as u64) as u32, effect, sticky: false });
+        }
+        return out;
     }
     let n = *rng.pick(&[1u64, 1, 1, 2, 2, 3]);
     let mut out = vec![];
